@@ -127,7 +127,7 @@ def random_composition(rng, W):
 
 def gen_cases(seed, tier):
     rng = np.random.default_rng([seed, 8])
-    n = 2400 if tier == 'quick' else 36000
+    n = 2400 if tier == 'quick' else 120000
     cases = []
     for i in range(n):
         kind = KINDS[i % 3]
